@@ -1,5 +1,6 @@
 pub mod build;
 pub mod exact;
+pub mod fuzzdec;
 pub mod gen;
 pub mod model;
 pub mod observe;
